@@ -4,6 +4,8 @@ import OV.Lemmas.C18NN
 import OV.Lemmas.C18Builder
 import OV.Lemmas.C18WF
 import OV.Lemmas.C18Sem
+import OV.Lemmas.C18Names
+import OV.Lemmas.C18Partition
 /-!
 # C18 — GraphBuilder / nn.Module graphs compute the trace; parameters named like PyTorch
 
@@ -167,6 +169,60 @@ theorem initializer_names_full_refuted_shared :
   revert this
   decide
 
+/-! ### modules called inside (nested) subgraphs -/
+
+/-- **Scope inheritance at any depth.**  Whatever set `ctl` of modules run their children inside a
+`GraphBuilder.subgraph` trace function — any number of them, nested to any depth, with ordinary modules entered
+in between — the realised initializer names are those of the same tree without subgraphs: `build_graph` hands the
+sub-builder a copy of its *parent's* scope stack and `Parameter._realize` qualifies with the *current* builder's
+scope, so only the innermost builder's scope matters and it always equals the path of module names. -/
+theorem realize_in_subgraphs_eq (ctl : List (List String)) (root : Mod) :
+    realizeB SubPolicy.code ctl root = realize root :=
+  realizeB_eq_realize ctl root
+
+/-- **The property with subgraphs** (no "subgraph-free forward" assumption any more): for every tree built by
+the public operations, every placement of subgraph bodies in the forwards, initializer names (in realisation
+order) = `root.name + "." + state_dict key`, each parameter once.  `_partial` only for what is forced:
+`Built` (explicit names agree with keys, linear construction) and distinct parameter objects. -/
+theorem initializer_names_eq_state_dict_subgraphs_partial (ctl : List (List String)) (root : Mod)
+    (hb : Built root) (hk : root.kind = .module) (hd : (pids root).Nodup) :
+    realizeB SubPolicy.code ctl root = (stateDict "" root).map (fun x => (rootKey root x.1, x.2)) := by
+  rw [realize_in_subgraphs_eq]
+  exact initializer_names_eq_state_dict_partial root hb hk hd
+
+/-- `model{ block1: Ctl{ inner: Ctl{ leaf: Lin } }, block2: Ctl{ inner: Lin } }` — If bodies nested two deep. -/
+def nestedNet : Mod :=
+  setChild (setChild (mkModule (some "model")) "block1"
+      (setChild (mkModule none) "inner" (setChild (mkModule none) "leaf" (lin none 0))))
+    "block2" (setChild (mkModule none) "inner" (lin none 1))
+
+def nestedCtl : List (List String) := [["block1"], ["block1", "inner"], ["block2"]]
+
+example : realizeB SubPolicy.code nestedCtl nestedNet =
+    [("model.block1.inner.leaf.weight", 0), ("model.block2.inner.weight", 1)] := by decide
+
+/-- The sub-builder must inherit from its **parent**: copying the root builder's scope instead (seeded change
+C18-6) loses the modules entered inside the outer body — at nesting depth 2 both leaves collide. -/
+theorem scope_inherit_root_refuted :
+    ¬ (∀ (ctl : List (List String)) (root : Mod), realizeB ⟨false, true⟩ ctl root = realize root) := by
+  intro h
+  have := h nestedCtl nestedNet
+  revert this
+  decide
+
+
+example : realizeB ⟨false, true⟩ nestedCtl nestedNet =
+    [("model.block1.leaf.weight", 0), ("model.block2.inner.weight", 1)] := by decide
+
+/-- **Before commit 77b0052** parameters were qualified with the *root* builder's scope (D20e): already at depth 1
+the module path inside the body is lost. -/
+theorem realize_in_subgraphs_prefix_refuted :
+    ¬ (∀ (ctl : List (List String)) (root : Mod), realizeB ⟨true, false⟩ ctl root = realize root) := by
+  intro h
+  have := h [[]] explicitNet
+  revert this
+  decide
+
 /-! ## Part A — names generated by `GraphBuilder` -/
 
 /-- **Names are unique** (after commits e9794aa and e7b46e0 — no hypothesis on the trace any more).  In
@@ -187,12 +243,23 @@ theorem auto_counts_bounded (fns : List Fn) (tr : List Item) :
     ∀ k ∈ (build fns tr).vkeys, ∀ p o c i, k = VKey.auto p o c i → c < nodeCount true (build fns tr) :=
   (Inv.foldl fns tr St.init Inv.init).1
 
+/-- **String-level uniqueness for the count-last naming** (`{op}_{count}` / `{op}_{i}_{count}`, proposed fix
+C18-D20f).  For every trace and *every* operator / function / scope name — no "plain name" hypothesis — the
+automatic value names, as strings, are pairwise distinct: an automatic name ends in the digits of its node count
+preceded by a non-digit (`digit_suffix_unique`), the count is unique per node across the builder tree
+(`names_unique_partial`), and keys made with one count share scope and op (`sameNode_foldl`) and differ in the
+output index.  With the current order `{op}_{count}_{i}` this is false (`names_unique_refuted_opname`). -/
+theorem names_unique_rendered_countlast (fns : List Fn) (tr : List Item) :
+    (((build fns tr).vkeys.filter isAutoKey).map VKey.renderNew).Nodup :=
+  renderNew_nodup _ (names_unique_partial fns tr)
+    (sameNode_foldl fns tr St.init Inv.init (by intro p o c i p' o' i' h; simp [St.init] at h))
+
 /-- D20a witness (regression case): main graph, `then` and `else` bodies each call `Add` first. -/
 def d20aTrace : List Item :=
-  [.input "x", .input "c", .op "Add" [.ref 0, .ref 0] (.auto 1) none [],
-   .beginSub "then" [], .op "Add" [.ref 0, .lit (.num "1.0" 1000 "f32")] (.auto 1) none [], .endSub [3] [""],
-   .beginSub "else" [], .op "Add" [.ref 0, .lit (.num "2.0" 2000 "f32")] (.auto 1) none [], .endSub [4] [""],
-   .op "If" [.ref 1] (.auto 1) none [0, 1]]
+  [.input "x", .input "c", .op "Add" [.ref 0, .ref 0] (.auto 1) none [] [],
+   .beginSub "then" [], .op "Add" [.ref 0, .lit (.num "1.0" 1000 "f32")] (.auto 1) none [] [], .endSub [3] [""],
+   .beginSub "else" [], .op "Add" [.ref 0, .lit (.num "2.0" 2000 "f32")] (.auto 1) none [] [], .endSub [4] [""],
+   .op "If" [.ref 1] (.auto 1) none [0, 1] []]
 
 /-- **Before the fix** (per-graph counter, `buildPrefix`) the statement was false — for the tuples, the
 rendered value names and the node names alike: all three graphs defined `v_Add_0` / `Add_node_0`. -/
@@ -216,12 +283,12 @@ example : ∀ it ∈ d20aTrace, simpleItem it = true := by decide
 
 /-- non-vacuity of `names_unique_partial`: a trace with scopes, literals, a multi-output op and a call. -/
 def simpleTrace : List Item :=
-  [.input "x", .push "blk", .op "Add" [.ref 0, .lit (.num "1" 1000 "f32")] (.auto 1) none [],
-   .op "Split" [.ref 1] (.auto 3) none [], .pop, .call 0 [.ref 2, .ref 3] none, .output 5 (some "out")]
+  [.input "x", .push "blk", .op "Add" [.ref 0, .lit (.num "1" 1000 "f32")] (.auto 1) none [] [],
+   .op "Split" [.ref 1] (.auto 3) none [] [], .pop, .call 0 [.ref 2, .ref 3] none [], .output 5 (some "out")]
 
 def fAddMul : Fn := ⟨"addmul", "c18", "", ["a0", "a1"],
-  [⟨"Add_node_0", "", "Add", [some "a0", some "a1"], ["v_Add_0"]⟩,
-   ⟨"Mul_node_1", "", "Mul", [some "a0", some "a1"], ["v_Mul_1"]⟩], ["v_Add_0", "v_Mul_1"]⟩
+  [⟨"Add_node_0", "", "Add", [some "a0", some "a1"], ["v_Add_0"], []⟩,
+   ⟨"Mul_node_1", "", "Mul", [some "a0", some "a1"], ["v_Mul_1"], []⟩], ["v_Add_0", "v_Mul_1"], []⟩
 
 example : ∀ it ∈ simpleTrace, simpleItem it = true := by decide
 example : (build [fAddMul] simpleTrace).valueNames =
@@ -229,9 +296,9 @@ example : (build [fAddMul] simpleTrace).valueNames =
      "out", "v_addmul_2_1"] := by decide
 
 /-- D20c witness (regression case): `call_inline` of a function returning its own input. -/
-def fIdent : Fn := ⟨"ident", "c18", "", ["a0"], [], ["a0"]⟩
+def fIdent : Fn := ⟨"ident", "c18", "", ["a0"], [], ["a0"], []⟩
 def d20cTrace : List Item :=
-  [.input "x", .op "Relu" [.ref 0] (.named ["x"]) none [], .inline 0 [.ref 0] none ""]
+  [.input "x", .op "Relu" [.ref 0] (.named ["x"]) none [] [], .inline 0 [.ref 0] none "" []]
 
 /-- **Before commit e7b46e0** `call_inline` renamed the caller's value in place: rendered value names were
 not unique even without subgraphs (`x` became `v_x`, colliding with the explicit output `x` → `v_x`). -/
@@ -249,11 +316,11 @@ example : (build [fIdent] d20cTrace).valueNames = ["x", "v_x"] := by decide
 
 /-- D20f: the rendering is not injective — `f` (4 outputs, node 1) and `f_1` (1 output, node 3) both give
 `v_f_1_3`, in a trace of plain calls. -/
-def fFour : Fn := ⟨"f", "c18", "", ["a0"], [], ["a0", "a0", "a0", "a0"]⟩
-def fOne : Fn := ⟨"f_1", "c18", "", ["a0"], [], ["a0"]⟩
+def fFour : Fn := ⟨"f", "c18", "", ["a0"], [], ["a0", "a0", "a0", "a0"], []⟩
+def fOne : Fn := ⟨"f_1", "c18", "", ["a0"], [], ["a0"], []⟩
 def d20fTrace : List Item :=
-  [.input "x", .op "Relu" [.ref 0] (.auto 1) none [], .call 0 [.ref 1] none,
-   .op "Add" [.ref 2, .ref 3] (.auto 1) none [], .call 1 [.ref 6] none]
+  [.input "x", .op "Relu" [.ref 0] (.auto 1) none [] [], .call 0 [.ref 1] none [],
+   .op "Add" [.ref 2, .ref 3] (.auto 1) none [] [], .call 1 [.ref 6] none []]
 
 theorem names_unique_refuted_opname :
     ¬ (∀ (fns : List Fn) (tr : List Item), (∀ it ∈ tr, simpleItem it = true) →
@@ -326,34 +393,116 @@ theorem inline_eq_call_partial {α : Type} (S : OpSem α) (total : Bool) (st : S
 values the function's outputs are mapped to — on its success path (all operands are values, not too many,
 `_outputs` of the right length). -/
 theorem inline_appends_clones (total : Bool) (fns : List Fn) (st : St) (fi : Nat) (args : List Arg)
-    (outs : Option (List String)) (pfx : String) (f : Fn) (hf : fns[fi]? = some f)
+    (outs : Option (List String)) (pfx : String) (as : List (String × AVal)) (f : Fn) (hf : fns[fi]? = some f)
     (h1 : args.all isRef = true) (h2 : ¬ args.length > f.formals.length) (h3 : outsMismatch outs f = false) :
-    (doInline total fns st fi args outs pfx).cur.nodes = st.cur.nodes ++
-      (inlineClones total (if pfx = "" then st else pushScope st pfx) f
+    (doInline total fns st fi args outs pfx as).cur.nodes = st.cur.nodes ++
+      (inlineClones total (if pfx = "" then st else pushScope st pfx) (resolveFn (effectiveAttrs total f as) f)
         (resolveArgs (if pfx = "" then st else pushScope st pfx) args).2).2.2 ∧
-    (doInline total fns st fi args outs pfx).handles = st.handles ++ f.outputs.map (vmapGet
-      (inlineClones total (if pfx = "" then st else pushScope st pfx) f
+    (doInline total fns st fi args outs pfx as).handles = st.handles ++ f.outputs.map (vmapGet
+      (inlineClones total (if pfx = "" then st else pushScope st pfx) (resolveFn (effectiveAttrs total f as) f)
         (resolveArgs (if pfx = "" then st else pushScope st pfx) args).2).2.1) :=
-  doInline_appends total fns st fi args outs pfx f hf h1 h2 h3
+  doInline_appends total fns st fi args outs pfx as f hf h1 h2 h3
 
 /-- Corollary: under an interpretation that gives the function symbol the meaning of its body, the values
 `call_inline` returns equal the values `call` returns. -/
 theorem inline_eq_call_values {α : Type} (S : OpSem α) (total : Bool) (st : St) (f : Fn)
     (actuals : List (Option Nat)) (e : Env α) (ha : ∀ i, some i ∈ actuals → i < st.L)
     (hssa : ∀ n ∈ f.nodes, n.outs.Nodup)
-    (hdef : takeN (S.op f.domain f.name f.overload (actuals.map (fun a => a.bind e))) f.outputs.length
+    (as : List (String × AVal))
+    (hdef : takeN (S.op f.domain f.name f.overload as (actuals.map (fun a => a.bind e))) f.outputs.length
       = evalBody S f (actuals.map (fun a => a.bind e))) :
     (f.outputs.map (vmapGet (inlineClones total st f actuals).2.1)).map
         (fun o => o.bind (evalNodes S e (inlineClones total st f actuals).2.2))
-      = takeN (S.op f.domain f.name f.overload (actuals.map (fun a => a.bind e))) f.outputs.length := by
+      = takeN (S.op f.domain f.name f.overload as (actuals.map (fun a => a.bind e))) f.outputs.length := by
   rw [hdef]
   exact (inline_eq_call_partial S total st f actuals e ha hssa).1
+
+/-! ### attributes: `call_inline` with declared defaults = `call` -/
+
+/-- **Inlining = calling, with attributes** (seeded-change class C18-4; D20d).  For every function `f` (body
+nodes may carry attribute values and references to attribute parameters, parameters may declare defaults), every
+list `passed` of attribute values given by the caller, every actuals, environment and operator interpretation: the
+nodes `call_inline` appends — the clones of the body with every reference attribute resolved under
+`effectiveAttrs true f passed` = passed values, then the declared default of each parameter not passed — evaluate,
+at the function's outputs, to what a *call node* carrying `passed` denotes (`callMeaning`: the body with reference
+attributes bound to the passed value, else the declared default), and touch no earlier value.
+That `doInline` appends exactly these clones is `inline_appends_clones`. -/
+theorem inline_attrs_eq_call {α : Type} (S : OpSem α) (st : St) (f : Fn) (passed : List (String × AVal))
+    (actuals : List (Option Nat)) (e : Env α) (ha : ∀ i, some i ∈ actuals → i < st.L)
+    (hssa : ∀ n ∈ f.nodes, n.outs.Nodup) :
+    (f.outputs.map (vmapGet (inlineClones true st (resolveFn (effectiveAttrs true f passed) f) actuals).2.1)).map
+        (fun o => o.bind (evalNodes S e
+          (inlineClones true st (resolveFn (effectiveAttrs true f passed) f) actuals).2.2))
+      = callMeaning S f passed (actuals.map (fun a => a.bind e)) ∧
+    ∀ i, i < st.L → evalNodes S e
+      (inlineClones true st (resolveFn (effectiveAttrs true f passed) f) actuals).2.2 i = e i := by
+  have hssa' : ∀ n ∈ (resolveFn (effectiveAttrs true f passed) f).nodes, n.outs.Nodup := by
+    intro n hn
+    simp only [resolveFn, List.mem_map] at hn
+    obtain ⟨n0, hn0, rfl⟩ := hn
+    exact hssa n0 hn0
+  exact inline_eq_call_partial S true st (resolveFn (effectiveAttrs true f passed) f) actuals e ha hssa'
+
+/-- A declared default is used **whatever its value** (`0`, `0.0`, `""`, `[]` included) as soon as the caller does
+not pass the attribute… -/
+theorem declared_default_is_used (f : Fn) (passed : List (String × AVal)) (p : String) (d : AVal)
+    (hp : attrGet passed p = none) (hd : (p, some d) ∈ f.attrParams) :
+    (p, d) ∈ effectiveAttrs true f passed := by
+  unfold effectiveAttrs
+  apply List.mem_append_right
+  simp only [if_true, List.mem_filterMap]
+  exact ⟨(p, some d), hd, by simp [hp]⟩
+
+/-- …and a passed value always wins over the default. -/
+theorem passed_attr_wins (f : Fn) (passed : List (String × AVal)) (p : String) (v : AVal)
+    (hp : attrGet passed p = some v) : attrGet (effectiveAttrs true f passed) p = some v := by
+  unfold effectiveAttrs attrGet at *
+  rw [List.find?_append]
+  cases h : passed.find? (fun e => e.1 = p) with
+  | none => simp [h] at hp
+  | some e => simpa [h] using hp
+
+/-- `leaky(a, alpha = 0.0) = LeakyRelu(a, alpha=alpha)`: a falsy declared default. -/
+def fLeaky : Fn := ⟨"leaky", "this", "", ["a"],
+  [⟨"n0", "", "LeakyRelu", [some "a"], ["return_val"], [("alpha", .ref "alpha")]⟩], ["return_val"],
+  [("alpha", some "f:0.0")]⟩
+
+/-- an interpretation in which the attribute matters: LeakyRelu with `alpha = 0.0` clamps at 0, with the
+    operator's own default (attribute absent) it lets negative inputs through. -/
+def attrSem : OpSem Int where
+  op := fun _ t _ as vs =>
+    match t, vs with
+    | "LeakyRelu", [some a] => if attrGet as "alpha" = some "f:0.0" then [max a 0] else [a]
+    | _, _ => []
+  lit := fun _ => 0
+
+def oneInput : St := build [] [.input "x"]
+
+example : (inlineClones true oneInput (resolveFn (effectiveAttrs true fLeaky []) fLeaky) [some 0]).2.2.map
+    (fun n => (n.op, n.attrs)) = [("LeakyRelu", [("alpha", "f:0.0")])] := by decide
+example : callMeaning attrSem fLeaky [] [some (-5)] = [some 0] := by decide
+example : ("alpha", "f:0.0") ∈ effectiveAttrs true fLeaky [] :=
+  declared_default_is_used fLeaky [] "alpha" "f:0.0" rfl (by decide)
+
+/-- **Before commit 1ed6700** `call_inline` handed only the passed attributes to the inliner: the reference
+attribute of the body was dropped and the inlined node fell back to the operator's own default — inlining ≠ calling
+(D20d; the seeded change C18-4 re-creates this for falsy defaults). -/
+theorem inline_attrs_prefix_refuted :
+    ¬ (∀ (f : Fn) (passed : List (String × AVal)) (e : Env Int),
+        (f.outputs.map (vmapGet (inlineClones false oneInput (resolveFn (effectiveAttrs false f passed) f)
+            [some 0]).2.1)).map (fun o => o.bind (evalNodes attrSem e
+              (inlineClones false oneInput (resolveFn (effectiveAttrs false f passed) f) [some 0]).2.2))
+          = callMeaning attrSem f passed [e 0]) := by
+  intro h
+  have := h fLeaky [] (fun _ => some (-5))
+  revert this
+  decide
 
 /-! ### non-vacuity -/
 
 /-- a concrete interpretation over `Int`. -/
 def intSem : OpSem Int where
-  op := fun _ t _ vs =>
+  op := fun _ t _ _ vs =>
     match t, vs with
     | "Add", [some a, some b] => [a + b]
     | "Mul", [some a, some b] => [a * b]
@@ -365,9 +514,9 @@ def intSem : OpSem Int where
     | .ints _ _ => 0
 
 def semTrace : List Item :=
-  [.input "x", .input "y", .op "Add" [.ref 0, .lit (.num "3" 3000 "i64")] (.auto 1) none [],
-   .push "blk", .op "Mul" [.ref 2, .ref 1] (.named ["p"]) none [], .pop,
-   .op "Add" [.lit (.num "3" 3000 "i64"), .ref 3] (.auto 1) none [], .call 0 [.ref 4, .ref 0] none,
+  [.input "x", .input "y", .op "Add" [.ref 0, .lit (.num "3" 3000 "i64")] (.auto 1) none [] [],
+   .push "blk", .op "Mul" [.ref 2, .ref 1] (.named ["p"]) none [] [], .pop,
+   .op "Add" [.lit (.num "3" 3000 "i64"), .ref 3] (.auto 1) none [] [], .call 0 [.ref 4, .ref 0] none [],
    .output 6 (some "out")]
 
 example : ∀ it ∈ semTrace, simItem it = true := by decide
@@ -383,5 +532,38 @@ example : (inlineClones true twoInputs fAddMul [some 0, some 1]).2.2.map (fun n 
     = [("Add", [some 0, some 1], [2]), ("Mul", [some 0, some 1], [3])] := by decide
 example : evalBody intSem fAddMul [some 5, some 7] = [some 12, some 35] := by decide
 example : ∀ n ∈ fAddMul.nodes, n.outs.Nodup := by decide
+
+/-! ## Part D — splitting a call's arguments into inputs and attributes -/
+
+/-- **No positional argument is lost.**  For every operator signature (any number of inputs / attributes, with or
+without a variadic input), every list of positional arguments and keyword arguments: if
+`_partition_inputs_attributes` returns (instead of raising `TypeError`), every positional argument of the traced
+call is an input or the value of an attribute of the node. -/
+theorem partition_keeps_positionals (sig : List SigParam) (args : List String) (kwargs : List (String × String))
+    (I : List String) (A : List (String × String)) (h : partition sig args kwargs = .ok (I, A)) :
+    ∀ a ∈ args, a ∈ I ∨ a ∈ A.map (·.2) := by
+  unfold partition at h
+  split at h
+  · cases h
+  · exact (partGo_keeps sig args kwargs [] [] I A h).1
+
+/-- The split depends on the signature **of the call's own opset version**: with the signature of another version
+the same call is split differently (`ReduceMax(x, [0])`: `axes` is an input from opset 18 on, an attribute before —
+the seeded change C18-5 memoised the signature per operator name). -/
+def sigReduceMax17 : List SigParam :=
+  [⟨"data", true, false, true, false⟩, ⟨"axes", false, false, false, false⟩, ⟨"keepdims", false, false, false, true⟩]
+def sigReduceMax18 : List SigParam :=
+  [⟨"data", true, false, true, false⟩, ⟨"axes", true, false, false, false⟩, ⟨"keepdims", false, false, false, true⟩,
+   ⟨"noop_with_empty_axes", false, false, false, true⟩]
+
+theorem partition_version_sensitive :
+    partition sigReduceMax17 ["x", "ax"] [] ≠ partition sigReduceMax18 ["x", "ax"] [] := by decide
+
+example : partition sigReduceMax18 ["x", "ax"] [("keepdims", "1")] = .ok (["x", "ax"], [("keepdims", "1")]) := by
+  decide
+example : partition sigReduceMax17 ["x", "ax"] [] = .ok (["x"], [("axes", "ax")]) := by decide
+example : partition sigReduceMax17 ["x"] [("axis", "0")] = .error .extraKwargs := by decide
+example : partition sigReduceMax17 [] [] = .error (.missing "data") := by decide
+example : partition sigReduceMax17 ["x", "a", "k", "z"] [] = .error .tooMany := by decide
 
 end OV.Props.C18
